@@ -47,9 +47,16 @@ NAMES = ["alpha", "beta", "gamma", "delta", "eps", "zeta", "eta", "theta"]
 @st.composite
 def template_program(draw):
     kind = draw(st.sampled_from(["kwargs", "percent-keys", "or-union", "merge-union", "typeddict", "protocol", "in-union",
-                                 "set-literal", "format-keys", "dict-union"]))
+                                 "set-literal", "format-keys", "dict-union", "generic-protocol", "generic-protocol"]))
     names = draw(st.lists(st.sampled_from(NAMES), min_size=3, max_size=6, unique=True))
     head = "from typing import *\nfrom typing_extensions import *\n"
+    if kind == "generic-protocol":
+        # verdicts about a generic protocol depend on its type arguments: a cache keyed too
+        # coarsely makes the result depend on what was checked before
+        proto = draw(st.sampled_from(["SupportsAbs", "SupportsRound", "Iterable", "Container"]))
+        t = draw(st.sampled_from(["int", "str", "float", "bytes"]))
+        u = draw(st.sampled_from(["int", "str", "float", "list[int]", "list[str]"]))
+        return head + f"def want(x: {proto}[{t}]) -> None: ...\ndef g(i: {u}):\n    want(i)\n"
     if kind == "kwargs":
         return head + "def f(a: int) -> None: ...\ndef g():\n    f(1, " + ", ".join(f"{n}=1" for n in names) + ")\n"
     if kind == "percent-keys":
